@@ -712,6 +712,10 @@ class KeychainSqlite3(Keychain):
         if name not in self:
             raise KeyError(f'Identity {Name.to_str(id_name)} does not exist')
         identity = self[name]
+        if kwargs.get('key_id'):
+            # A key id chosen by the caller may be taken: refuse before the TPM replaces the private key of that key
+            if self.tpm.construct_key_name(name, b'', **kwargs) in identity:
+                raise KeyError(f'Identity {Name.to_str(id_name)} already has a key with this id')
         key_name, pub_key = self.tpm.generate_key(name, key_type, **kwargs)
         signer = self.tpm.get_signer(key_name)
         cert_name, cert_data = self_sign(key_name, pub_key, signer)
